@@ -3,7 +3,7 @@
 import json, os, shutil, glob, re
 CAUGHT = {
  'C01-m1': ('./check C01', 'BufMgr level: panic / double owner with two classes of one size'),
- 'C01-m2': (None, 'not caught: the double recycle happens in the stream layer and needs a corrupt queue element (fault outside C01\'s quantifier); noted in DESIGN §9'),
+ 'C01-m2': ('./check C09', 'staged fault scenario corrupt-offset/behind-good-message (a queue element with an invalid buffer offset behind a good message; added in round 3 after this seed had escaped two rounds): ledger not exact after the good message was released'),
  'C02-m1': ('./check C02', 'FreeList with message chains: quiescent-chain'),
  'C02-m2': ('./check C02', 'FreeList with message chains: size-bound / double free'),
  'C04-m1': ('./check C04', 'bounds (tail-head > cap)'),
